@@ -303,7 +303,7 @@ PROPS["C03"] = {
             "limit below the size, or unparseable input",
     "essential": {"all": ["carrier:query", "carrier:urlencoded", "carrier:headers", "carrier:cookies", "carrier:multipart", "carrier:json", "carrier:xml",
                           "dup-or-case-variant-name", "empty-name-or-value", "delimiter-byte-in-data", "body-limit-below-size:Reject",
-                          "body-limit-below-size:ProcessPartial", "unparseable:json", "multipart-files", "error-flagged", "content-type-with-parameter"]},
+                          "body-limit-below-size:ProcessPartial", "unparseable:json", "multipart-files", "error-flagged", "content-type-with-parameter", "uploads-sharing-a-file-name"]},
     "assumptions": COMMON_ASSUME + [
         "only data encodable in the carrier is generated (cookie names/values without ';' and surrounding blanks, multipart names without CR/LF/quote, control and non-ASCII bytes always percent-encoded in the request line)",
         "three known findings are excluded by construction while their witnesses still fail (arguments over the limit, colliding JSON keys, multipart without closing boundary)",
@@ -396,7 +396,7 @@ PROPS["C06"] = {
             "-tags coraza.rule.multiphase_evaluation); oracle = no race report (GORACE halt_on_error), no panic, no deadlock (120 s), every "
             "concurrent transaction's canonical outcome equals the outcome of the same request run alone on a fresh WAF; non-trivial = at "
             "least two transactions were in flight together (measured)",
-    "essential": {"all": ["overlap-observed", "rule-with-spare-exception-capacity", "runtime-target-exclusion", "shared-pm", "chain", "concurrent-waf-builds", "audit-index-write-fails"]},
+    "essential": {"all": ["overlap-observed", "rule-with-spare-exception-capacity", "runtime-target-exclusion", "shared-pm", "chain", "concurrent-waf-builds", "audit-index-write-fails", "logger-with-context-fields"]},
     "assumptions": COMMON_ASSUME + [
         "the Go scheduler is not controlled: the race detector reports happens-before violations on the paths the workload drives, not on all interleavings",
         "a data race aborts the process; the workload being run is written to disk first and becomes the replay file together with the shard log",
